@@ -333,9 +333,28 @@ func (fx *FnExec) pheapName(t types.Type) (string, Sort) {
 	return "P_" + sanitize(string(s)), ArrSort(SInt, s)
 }
 
+// elemHeapName: the backing arrays of slices live in one heap component per element
+// type (two slices of different element types never share memory: no unsafe in the subset).
 func (fx *FnExec) elemHeapName(t types.Type) (string, Sort) {
 	s := fx.e.sortOf(t)
-	return "E_" + sanitize(string(s)), ArrSort(SInt, ArrSort(SInt, s))
+	id := ""
+	if b, ok := t.(*types.Basic); ok {
+		id = fmt.Sprintf("b%d", b.Kind())
+	} else if _, ok := t.Underlying().(*types.Interface); ok {
+		// slices of interface values share one component: contracts pass a []constant.Constant where a
+		// []value.Value is expected (same representation), which must read the same memory
+		id = "Ifc"
+	} else {
+		id = typeID(t)
+		if len(id) > 48 {
+			h := 0
+			for _, c := range []byte(id) {
+				h = (h*131 + int(c)) % 1000000007
+			}
+			id = fmt.Sprintf("%s_%d", id[:40], h)
+		}
+	}
+	return "E_" + id, ArrSort(SInt, ArrSort(SInt, s))
 }
 
 // elemAt reads element i of slice s from element heap h. For slices whose
